@@ -137,6 +137,17 @@ theorem noPanic_turnTcpRecv (bufLen : Nat) (stream : List UInt8) (s : String) :
     runBuf (Ice.turnTcpRecv bufLen) stream ≠ .panic s :=
   safe_noPanic (Ice.turnTcpRecv_safe bufLen _ _) s
 
+/-- the RFC 4571 reader behind `IceSocketWrapper::recv_from` on an ICE-TCP stream and the first-frame reader of the
+shared passive TCP listener: for every byte stream the peer sends before closing, no panic, the read ends, the returned
+length fits the buffer, and the listener allocates at most `MAX_STUN_MESSAGE` (generated constant) bytes per connection. -/
+theorem noPanic_tcp4571Recv (bufLen : Nat) (stream : List UInt8) (s : String) :
+    runBuf (Ice.tcp4571Recv bufLen) stream ≠ .panic s :=
+  safe_noPanic (Ice.tcp4571Recv_safe bufLen _ _) s
+theorem noPanic_sharedTcpFirstFrame (stream : List UInt8) (s : String) : runBuf Ice.sharedTcpFirstFrame stream ≠ .panic s :=
+  safe_noPanic (Ice.sharedTcpFirstFrame_safe _) s
+theorem allocBound_sharedTcpFirstFrame (stream : List UInt8) : (runBuf Ice.sharedTcpFirstFrame stream).allocs ≤ 1500 := by
+  simpa [runBuf] using safe_allocs (safe_mono (Ice.sharedTcpFirstFrame_safe (Buf.ofList stream)) (fun _ _ _ h => h.2))
+
 /-- `unwrap_rtx_packet` is total on every payload. -/
 theorem noPanic_unwrapRtx (bs : List UInt8) (s : String) : runSlice Ice.unwrapRtx bs ≠ .panic s :=
   safe_noPanic (Ice.unwrapRtx_safe bs.toArray _ _) s
